@@ -198,6 +198,42 @@ def F43():
     except Exception:
         return True
     return lc.constraint_matrix.tolist() != [[1.0, 0.0], [1.0, 1.0]] or list(lc.constraint_values) != [-1, 3]
+def F44():
+    return Formula("y ~ scale + center(x)").required_variables != {"y", "scale", "x"}
+def F45():
+    d = pd.DataFrame({"y": [1.0, 2, 3], "x": [3.0, 1, 2], "y var": [1.0, 2, 3]})
+    m = model_matrix("np.log(`y var`) ~ .", d, context={"np": np})
+    return list(m.rhs.columns) != ["Intercept", "y", "x"]
+def F46():
+    return exc(Formula, "2:a:b + 3:b:a") != "FormulaSyntaxError" or exc(Formula, "2:a:b + 3:a:b") != "FormulaSyntaxError"
+def F47():
+    m = model_matrix("bs(x, df=6, lower_bound=-2, upper_bound=2, extrapolation='extend', include_intercept=True) - 1",
+                     pd.DataFrame({"x": np.linspace(-10, 10, 41)}), context={})
+    k = list(m.model_spec.transform_state.values())[0]["knots"]
+    return k != sorted(k)
+def F48():
+    x = np.random.default_rng(0).uniform(0, 10, 50)
+    m = model_matrix("cr(x, df=4, constraints='center', extrapolation='zero', lower_bound=2, upper_bound=8) - 1", pd.DataFrame({"x": x}), context={})
+    return float(np.abs(m.values.mean(0)).max()) > 1e-12
+def F49():
+    return exc(Formula, "a**99999999999999999999") is not None or terms("(a+b)**12") != terms("(a+b)**2")
+def F50():
+    import copy
+    p = DefaultFormulaParser(feature_flags=set())
+    return exc(copy.deepcopy(p).get_terms, "a | b") != "FormulaSyntaxError"
+def F51():
+    import signal
+    def boom(*a):
+        raise TimeoutError
+    signal.signal(signal.SIGALRM, boom)
+    signal.alarm(30)
+    try:
+        n = len(Formula("(a+b+c+d+e+f+g+h+i+j+k+l)**99999999999999999999"))
+    except (TimeoutError, MemoryError, OverflowError):
+        return True
+    finally:
+        signal.alarm(0)
+    return n != 4096
 
 ids = sys.argv[1:] or [f"F{i}" for i in range(1, 26)]
 for i in ids:
